@@ -85,6 +85,7 @@ type VC struct {
 	specDepth int
 	quants []*quantRec
 	refArr map[string]bool
+	assumedAt map[string][]string
 	plainGoal bool
 	curFamily string
 	writes []writeRec
@@ -149,6 +150,7 @@ func (vc *VC) reset() {
 	vc.notes = nil
 	vc.lets = map[string]Val{}
 	vc.quants = nil
+	vc.assumedAt = nil
 	vc.writes = nil
 	vc.macros = nil
 	vc.iters = map[*ssa.Range]iterInfo{}
@@ -249,6 +251,20 @@ func (vc *VC) addObl(kind, name string, st *State, goal string, p token.Pos, tag
 
 func (st *State) assume(vc *VC, fact string) {
 	if fact == T {
+		return
+	}
+	if strings.Contains(fact, "(forall ") {
+		// remember under which path condition each quantified spec formula was assumed: its ground instances can then be
+		// stated under that path condition (the solver need not re-derive the quantified formula itself)
+		st.pc = vc.forceName("pc", "Bool", And(st.pc, fact))
+		for _, q := range vc.quants {
+			if strings.Contains(fact, q.Text) {
+				if vc.assumedAt == nil {
+					vc.assumedAt = map[string][]string{}
+				}
+				vc.assumedAt[q.Text] = append(vc.assumedAt[q.Text], st.pc)
+			}
+		}
 		return
 	}
 	st.pc = vc.name("pc", "Bool", And(st.pc, fact))
